@@ -18,42 +18,16 @@ import xtuml
 
 sys.path.insert(0, os.path.dirname(os.path.abspath(__file__)))
 from _util import limit, CallTimeout
+import random
+import shutil
+import tempfile
+import zipfile
 
 LIMIT = 200
 
 
-def decode(tok):
-    """value token -> python value"""
-    if tok == 'unset':
-        return None
-    k, v = tok[0], tok[2:]
-    if k == 'u' or k == 'i':
-        return int(v)
-    if k == 'b':
-        return bool(int(v))
-    if k == 'r':
-        return float(v)
-    if k == 's':
-        return v
-    raise ValueError(tok)
-
-
-def encode(v, ty):
-    """python value -> token, according to the declared type of the attribute"""
-    ty = (ty or '').upper()
-    if v is None:
-        return 'unset'
-    if ty == 'UNIQUE_ID' and isinstance(v, int) and not isinstance(v, bool):
-        return 'u:%d' % v
-    if ty == 'INTEGER' and isinstance(v, int) and not isinstance(v, bool):
-        return 'i:%d' % v
-    if ty == 'BOOLEAN' and isinstance(v, bool):
-        return 'b:%d' % int(v)
-    if ty == 'REAL' and isinstance(v, float):
-        return 'r:%r' % v
-    if ty == 'STRING' and isinstance(v, str):
-        return 's:' + v
-    return '?:%s:%r' % (type(v).__name__, v)
+from _sql import decode, encode
+import _sql
 
 
 SPELLERS = [lambda s: s, lambda s: s.lower(), lambda s: s.upper(), lambda s: s.swapcase(),
@@ -127,6 +101,7 @@ def build_metamodel(schema, id_generator):
 class World(object):
     def __init__(self, plan):
         self.schema = plan['schema']
+        self.plan = plan
         self.m = build_metamodel(self.schema, make_generator(plan))
         self.h = {c: [] for c in self.schema['classes']}     # class -> handles by ordinal-1
         self.types = {c: {a['n']: a['t'] for a in self.schema['attrs'][c]} for c in self.schema['classes']}
@@ -142,6 +117,127 @@ class World(object):
 
     def inst(self, c, i):
         return self.h[c][i - 1]
+
+    # ---- loading and persisting ----
+    def adopt(self, m):
+        """continue with another metamodel: handles are its instances in pool order"""
+        self.m = m
+        self.h = {}
+        for c in self.schema['classes']:
+            try:
+                self.h[c] = list(m.select_many(c))
+            except xtuml.UnknownClassException:
+                self.h[c] = []
+
+    def load_texts(self, chunks, route, rnd):
+        """feed text chunks to a fresh loader through the given route and build"""
+        loader = xtuml.ModelLoader()
+        tmp = tempfile.mkdtemp(prefix='vt-load-')
+        try:
+            if route == 'input':
+                for ch in chunks:
+                    loader.input(ch)
+            elif route == 'one':
+                loader.input('\n'.join(chunks))
+            elif route == 'files':
+                for k, ch in enumerate(chunks):
+                    p = os.path.join(tmp, 'f%d.sql' % k)
+                    with open(p, 'w', encoding='utf-8') as f:
+                        f.write(ch)
+                    if k % 2:
+                        loader.filename_input(p)
+                    else:
+                        with open(p, 'r', encoding='utf-8') as f:
+                            loader.file_input(f)
+            elif route == 'load_metamodel':
+                paths = []
+                for k, ch in enumerate(chunks):
+                    p = os.path.join(tmp, 'f%d.sql' % k)
+                    with open(p, 'w', encoding='utf-8') as f:
+                        f.write(ch)
+                    paths.append(p)
+                return xtuml.load_metamodel(paths if len(paths) > 1 else paths[0]), loader
+            else:
+                raise SystemExit('unknown route %r' % route)
+            return loader.build_metamodel(make_generator(self.plan)), loader
+        finally:
+            shutil.rmtree(tmp, ignore_errors=True)
+
+    def render_population(self, rows, rnd, order='schema_first', nchunks=1, named=None):
+        sch = [s for _, s in _sql.schema_statements(self.schema, rnd)]
+        ins = [_sql.insert_statement(self.schema, r, rnd, named) for r in rows]
+        if order == 'schema_first':
+            stmts = sch + ins
+        elif order == 'schema_last':
+            stmts = ins + sch
+        else:                                   # schema statements scattered; inserts keep their relative order
+            stmts = list(ins)
+            for s in sch:
+                stmts.insert(rnd.randint(0, len(stmts)), s)
+        nchunks = max(1, min(nchunks, len(stmts)))
+        cuts = sorted(rnd.sample(range(1, len(stmts)), nchunks - 1)) if nchunks > 1 else []
+        chunks, prev = [], 0
+        for c in cuts + [len(stmts)]:
+            chunks.append('\n'.join(stmts[prev:c]) + '\n')
+            prev = c
+        return chunks
+
+    def save_texts(self, route):
+        m = self.m
+        tmp = tempfile.mkdtemp(prefix='vt-save-')
+        try:
+            if route == 'serialize_database':
+                return [xtuml.serialize_database(m)]
+            if route == 'serialize':
+                return [xtuml.serialize(m)]
+            if route == 'parts':
+                return [xtuml.serialize_schema(m), xtuml.serialize_instances(m), xtuml.serialize_unique_identifiers(m)]
+            if route == 'parts_reordered':
+                return [xtuml.serialize_instances(m), xtuml.serialize_unique_identifiers(m), xtuml.serialize_schema(m)]
+            if route == 'persist_database':
+                p = os.path.join(tmp, 'db.sql')
+                xtuml.persist_database(m, p)
+                return [open(p, encoding='utf-8').read()]
+            if route == 'persist_parts':
+                ps = [os.path.join(tmp, n) for n in ('s.sql', 'i.sql', 'u.sql')]
+                xtuml.persist_schema(m, ps[0])
+                xtuml.persist_instances(m, ps[1])
+                xtuml.persist_unique_identifiers(m, ps[2])
+                return [open(p, encoding='utf-8').read() for p in ps]
+            if route == 'persist_append':
+                p = os.path.join(tmp, 'db.sql')
+                xtuml.persist_schema(m, p)
+                xtuml.persist_instances(m, p, mode='a')
+                xtuml.persist_unique_identifiers(m, p, mode='a')
+                return [open(p, encoding='utf-8').read()]
+            if route == 'classes_assocs':
+                return [xtuml.serialize_classes(m) + xtuml.serialize_associations(m)
+                        + ''.join(xtuml.serialize(x) for x in m.instances) + xtuml.serialize_unique_identifiers(m)]
+            raise SystemExit('unknown save route %r' % route)
+        finally:
+            shutil.rmtree(tmp, ignore_errors=True)
+
+    def schema_projection(self):
+        m = self.m
+        attrs, uniq = {}, {}
+        for c in self.schema['classes']:
+            try:
+                mc = m.find_metaclass(c)
+            except xtuml.UnknownClassException:
+                attrs[c], uniq[c] = [['?', '?']], []
+                continue
+            attrs[c] = [[n, t.upper()] for n, t in mc.attributes] or [['?', '?']]
+            uniq[c] = sorted([[k, list(v)] for k, v in mc.indices.items()])
+        assocs = []
+        for a in m.associations:
+            assocs.append({'rel': a.rel_id, 'src': a.target_link.from_metaclass.kind, 'skeys': list(a.source_keys),
+                           'smany': bool(a.source_link.many), 'scond': bool(a.source_link.conditional),
+                           'sphrase': a.target_link.phrase,
+                           'tgt': a.source_link.from_metaclass.kind, 'tkeys': list(a.target_keys),
+                           'tmany': bool(a.target_link.many), 'tcond': bool(a.target_link.conditional),
+                           'tphrase': a.source_link.phrase})
+        extra = sorted(k for k in m.metaclasses if k not in [c.upper() for c in self.schema['classes']])
+        return {'attrs': attrs, 'uniques': uniq, 'assocs': assocs, 'extra': extra}
 
     def ordinal(self, c, inst):
         for k, x in enumerate(self.h[c]):
@@ -309,6 +405,68 @@ class World(object):
                 elif self.genkind == 'user':
                     ev['g'] = self.m.id_generator.k - 1   # ids the harness' own generator has handed out
             return ev, 'none'
+        if name == 'LoadBuild':
+            rows, how = act[1], (act[2] if len(act) > 2 else {})
+            ev.update({'rows': rows, 'g': -1, 'how': how})
+            rnd = random.Random(how.get('seed', k))
+            chunks = self.render_population(rows, rnd, how.get('order', 'schema_first'), how.get('chunks', 1),
+                                            how.get('named'))
+            m, _ = self.load_texts(chunks, how.get('route', 'input'), rnd)
+            self.adopt(m)
+            ev['schema'] = self.schema_projection()
+            if self.genkind == 'int' and how.get('route') != 'load_metamodel':
+                ev['g'] = self.m.id_generator.peek() - 1
+            return ev, 'none'
+        if name == 'SaveLoad':
+            how = act[1] if len(act) > 1 else {}
+            ev.update({'g': -1, 'how': how})
+            rnd = random.Random(how.get('seed', k))
+            texts = self.save_texts(how.get('save', 'serialize_database'))
+            m, _ = self.load_texts(texts, how.get('route', 'input'), rnd)
+            self.adopt(m)
+            ev['schema'] = self.schema_projection()
+            # the text is a fixed point after one round
+            t1 = xtuml.serialize(self.m)
+            l2 = xtuml.ModelLoader()
+            l2.input(t1)
+            t2 = xtuml.serialize(l2.build_metamodel(xtuml.IntegerGenerator()))
+            ev['fix'] = 'yes' if t1 == t2 else 'no'
+            if self.genkind == 'int' and how.get('route') != 'load_metamodel':
+                ev['g'] = self.m.id_generator.peek() - 1
+            return ev, 'none'
+        if name == 'NewRow':
+            row, how = act[1], (act[2] if len(act) > 2 else {})
+            c = row['c']
+            ev.update({'row': row, 'g': -1, 'c': c})
+            names = [a['n'] for a in self.schema['attrs'][c]]
+            given = {n: decode(t) for n, t in row['v'].items() if t != 'unset'}
+            inst = None
+            before = len(self.m.find_metaclass(c).storage)
+            try:
+                if how.get('clone') is not None:
+                    # clone the corresponding instance of another metamodel, loaded from the whole population
+                    if getattr(self, 'source', None) is None:
+                        rnd = random.Random(7)
+                        chunks = self.render_population(how['src'], rnd)
+                        self.source, _ = self.load_texts(chunks, 'input', rnd)
+                    tmp = list(self.source.select_many(c))[how['clone']]
+                    # the row is what the clone call reads from the source instance
+                    ev['row'] = {'c': c, 'v': {a['n']: self.read(tmp, a['n'], a['t']) for a in self.schema['attrs'][c]}}
+                    inst = self.m.clone(tmp)
+                elif how.get('positional') and len(given) == len(names):
+                    inst = self.m.new(self.cname(c), *[given[n] for n in names])
+                else:
+                    kw = {(spell(n, k) if self.opt.get('spell_attr') else n): v for n, v in given.items()}
+                    inst = self.m.new(self.cname(c), **kw)
+            finally:
+                st = self.m.find_metaclass(c).storage
+                if inst is None and len(st) > before:
+                    inst = st[-1]
+                if inst is not None:
+                    self.h[c].append(inst)
+                if self.genkind == 'int':
+                    ev['g'] = self.m.id_generator.peek() - 1
+            return ev, 'none'
         if name == 'NewUnknown':
             ev.update({'c': act[1]})
             self.m.new(act[1])
@@ -368,7 +526,7 @@ def run(plan, acts, obs=None):
                 ev, res = w.act(act, k, ev)
         except CallTimeout:
             res = 'Timeout'
-        except xtuml.MetaException as e:
+        except (xtuml.MetaException, xtuml.ParsingException) as e:
             res = type(e).__name__
         except Exception as e:
             res = 'PY:' + type(e).__name__
@@ -377,6 +535,8 @@ def run(plan, acts, obs=None):
         empty = {c: [] for c in plan['schema']['classes']}
         ev.update({'pool': dict(empty), 'nav': [], 'attr': dict(empty), 'spell': dict(empty), 'ser': dict(empty),
                    'q': [], 'qr': []})
+        ev.setdefault('fix', '')
+        ev.setdefault('schema', {'attrs': {'_': []}, 'uniques': {'_': []}, 'assocs': [], 'extra': ['-']})
         if ev['op'] in ('DelAttr',) and res.startswith('PY:'):
             res = res[3:]
             ev['res'] = res
